@@ -308,6 +308,12 @@ func (r *Recorder) Fail(t TB, test, sig string, err error, c any) {
 		r.Excluded(sig)
 		return
 	}
+	if strings.HasPrefix(sig, "harness-") {
+		// the harness itself could not evaluate the case (e.g. a struct field the pinned tables do not know):
+		// that is an inconclusive run, never a violation
+		t.Fatalf("VERIF-INCONCLUSIVE property=%s test=%s sig=%s: %v", r.Prop, test, sig, err)
+		return
+	}
 	p := SaveReplay(r.Prop, test, sig, err, c)
 	t.Fatalf("VERIF-FAIL property=%s test=%s sig=%s replay=%s: %v", r.Prop, test, sig, p, err)
 }
